@@ -88,6 +88,9 @@ is_ascii_domain (const char *start, const char *end)
         }
     } /* for(...) */
 
+    if (label_length == 0)
+        return inverse(EEAV_DOMAIN_MISPLACED_DELIMITER);
+
     if (non_numeric == 0) {
         /* numeric hostname */
 #ifndef SLOPPY_VALID_HOSTNAME
